@@ -93,6 +93,8 @@ class Client:
         self.__respcode_value_expr = re.compile(rb'\(((?:[^()"]|"(?:[^"\\]|\\.)*")*)\)')
         self.__size_expr = re.compile(rb"\{(\d+)\+?\}")
         self.__active_expr = re.compile(rb"ACTIVE", re.IGNORECASE)
+        self.__element_expr = re.compile(rb'"((?:[^"\\]|\\.)*)"|([^\s"]+)')
+        self.__response_lines: List[List[Tuple[bool, bytes]]] = []
 
     def __del__(self):
         if self.sock is not None:
@@ -200,6 +202,7 @@ class Client:
         nblines is provided, code and data can be equal to None.
         """
         resp, code, data = (b"", None, None)
+        self.__response_lines = []
         cpt = 0
         while True:
             try:
@@ -209,18 +212,40 @@ class Client:
                 data = inst.data
                 break
             except Literal as inst:
-                resp += self.__read_block(inst.value)
-                if not resp.endswith(CRLF):
-                    resp += self.__read_line() + CRLF
+                block = self.__read_block(inst.value)
+                resp += block
+                elements = [(True, block)]
+                if not block.endswith(CRLF):
+                    # the rest of the line this literal belongs to
+                    line = self.__read_line()
+                    resp += line + CRLF
+                    elements += self.__split_line(line)
+                self.__response_lines += [elements]
                 continue
             if not len(line):
                 continue
             resp += line + CRLF
+            self.__response_lines += [self.__split_line(line)]
             cpt += 1
             if nblines != -1 and cpt == nblines:
                 break
 
         return (code, data, resp)
+
+    def __split_line(self, line: bytes) -> List[Tuple[bool, bytes]]:
+        """Split a response line into its elements.
+
+        :param line: the line to split
+        :return: a list of (is a string, value) tuples; the value of
+                 a quoted string is returned unescaped
+        """
+        ret = []
+        for m in self.__element_expr.finditer(line):
+            if m.group(1) is not None:
+                ret += [(True, re.sub(rb"\\(.)", rb"\1", m.group(1)))]
+            else:
+                ret += [(False, m.group(2))]
+        return ret
 
     def __prepare_args(self, args: List[Any]) -> List[bytes]:
         """Format command arguments before sending them.
@@ -639,15 +664,14 @@ class Client:
             return None
         ret: List[str] = []
         active_script: str = None
-        for l in listing.splitlines():
-            if self.__size_expr.match(l):
+        for elements in self.__response_lines:
+            if not elements or not elements[0][0]:
                 continue
-            m = re.match(rb'"([^"]+)"\s*(.+)', l)
-            if m is None:
-                ret += [l.strip(b'"').decode("utf-8")]
-                continue
-            script = m.group(1).decode("utf-8")
-            if self.__active_expr.match(m.group(2)):
+            script = elements[0][1].decode("utf-8")
+            if any(
+                not is_string and self.__active_expr.fullmatch(value)
+                for is_string, value in elements[1:]
+            ):
                 active_script = script
                 continue
             ret += [script]
